@@ -3,7 +3,9 @@ import os, json, re, collections, hashlib, itertools, time
 import vlib
 
 PROP_FILES = ['Properties/C05']
+EXTRA_OBLIGATION_FILES = ['Proofs/AtomWire']
 TRUSTED = [
+    'atomic steps of the hand-written model as GENERATED obligations (Proofs/AtomWire.v, re-proved on every run about coq/Gen/Atomicity.v; in a private re-generated copy under VERIF_EXTRA_OVERLAY): tools/lockscan (go/ast, syntactic types) is trusted to list, per function of internal/{server,multiplex,common,client}, every field access / call / sync/atomic operation with the critical sections (Lock..Unlock / RLock..RUnlock / deferred unlock, mutex identity by name) it lies in, every sync.Pool.Put with the later mentions of the object, and every variable a go statement shares with its spawner (anything it cannot resolve is in atomicity_errors, which must be empty); it does not follow calls (a region is what one function writes between Lock and Unlock), does no alias analysis, treats callbacks as running with no lock held, and counts call sites, not executions (a loop around one call site is invisible)',
     'Coq 8.16.1 kernel incl. vm_compute (no native_compute); all C05_* theorems: Closed under the global context',
     'hand-written model coq/Model/Record.v of AddRecordLayer, TLSConn.Write, TLSConn.Read (io.ReadFull = io.ReadAtLeast loop over a chunked stream) and of the WebSocketConn.Read loop over an abstract message reader',
     'net.Conn.Write appends its argument atomically to a FIFO byte stream and Read returns a non-empty prefix of what is pending, io.EOF at the end (DESIGN section 3); the theorem about concurrent writers rests on TLSConn.Write issuing exactly ONE underlying Write per message, which the driver observes on every write',
